@@ -8,6 +8,7 @@ package gbn
 
 import (
 	"context"
+	"errors"
 	"fmt"
 	"sync"
 	"time"
@@ -29,11 +30,12 @@ func init() {
 	simrt.Register(&simrt.Scenario{
 		Prop: "C10", Name: "hs-stray", Enumerated: true, Count: fixed(len(c10StrayKinds) * 6 * 2),
 		Run: c10Stray, MaxOps: 1 << 20, Horizon: time.Hour,
-		Doc: "enumerated: one attempt on a fault-free transport, one stray packet of an earlier connection (ACK, NACK, DATA, ping, FIN, SYNACK, empty, garbage) delivered to the server or to the client at each of six instants around the SYN / echo / SYNACK exchange; once the client is in the data phase (its SYNACK is out) the server's attempt must have ended too - data phase with the client's window, or an error, never silently half-finished - and a server in the data phase implies a client that is",
+		Doc: "enumerated: one attempt on a fault-free transport, one stray packet of an earlier connection (ACK, NACK, DATA, ping, FIN, SYNACK, empty, garbage) delivered to - or one receive error reported to - the server or the client at each of six instants around the SYN / echo / SYNACK exchange; once the client is in the data phase (its SYNACK is out) the server's attempt must have ended too - data phase with the client's window, or an error, never silently half-finished - and a server in the data phase implies a client that is",
 	})
 }
 
-var c10StrayKinds = [][]byte{{ACK, 0}, {NACK, 0}, {DATA, 0, TRUE, FALSE, 's'}, {DATA, 0, TRUE, TRUE}, {FIN}, {SYNACK}, {}, {0x77, 1, 2}}
+// (the last kind, nil, is not a packet: the receive callback returns an error)
+var c10StrayKinds = [][]byte{{ACK, 0}, {NACK, 0}, {DATA, 0, TRUE, FALSE, 's'}, {DATA, 0, TRUE, TRUE}, {FIN}, {SYNACK}, {}, {0x77, 1, 2}, nil}
 
 func c10Stray(rc *simrt.RunCtx) {
 	idx := rc.Idx()
@@ -47,7 +49,11 @@ func c10Stray(rc *simrt.RunCtx) {
 	c2s := &netCfg{latMin: lat, latMax: lat}
 	s2c := &netCfg{latMin: lat, latMax: lat}
 	np := newNetPair(rc, c2s, s2c)
-	rc.Knob("stray", fmt.Sprintf("%s to-server=%v at=%d", pktString(kind), toServer, at))
+	kindName := "transport-receive-error"
+	if kind != nil {
+		kindName = pktString(kind)
+	}
+	rc.Knob("stray", fmt.Sprintf("%s to-server=%v at=%d", kindName, toServer, at))
 	ctx, cancel := context.WithCancel(context.Background())
 	defer cancel()
 	opts := []Option{WithTimeoutOptions(tk.opts()...)}
@@ -72,6 +78,10 @@ func c10Stray(rc *simrt.RunCtx) {
 		l := np.s2c
 		if toServer {
 			l = np.c2s
+		}
+		if kind == nil {
+			l.failRecv(errors.New("simulated transport receive failure"))
+			return
 		}
 		l.inject(kind, 0)
 		rc.Fault("stray-" + pktKind(kind))
@@ -105,6 +115,26 @@ wait:
 	// phase has sent its SYNACK over a fault-free link: the server must
 	// then have finished its attempt too, one way or the other - and a
 	// server in the data phase implies a client that is.
+	if kind == nil {
+		// the transport told one side that receiving failed: that side's
+		// attempt cannot proceed and has to end with an error (or, if the
+		// failure came after it was done, in the data phase) - not hang
+		who := "client"
+		if toServer {
+			who = "server"
+		}
+		if state[who] == "pending" {
+			rc.Violate("c10.attempt-hangs", who+"/transport-receive-error", "%v after its receive callback returned an error (position %d) the %s constructor has neither failed nor entered the data phase", bound, at, who)
+		}
+		rc.Progress()
+		cancel()
+		for _, r := range got {
+			if r.c != nil {
+				r.c.Close()
+			}
+		}
+		return
+	}
 	switch {
 	case state["client"] == "data-phase" && state["server"] == "pending":
 		rc.Violate("c10.attempt-hangs", "server/stray-"+pktKind(kind), "%v after the start, on a fault-free transport with one stray %s (to the server: %v, position %d): the client is in the data phase, the server constructor has neither entered the data phase nor failed", bound, pktString(kind), toServer, at)
